@@ -474,6 +474,9 @@ func init() {
 	runIn := func(fr *frame, d *kvDB, update bool, fn value) value {
 		p := fr.i.path
 		t := newTxn(p, d, update)
+		if update {
+			txnBodyPoint(fr)
+		}
 		res := call(fr.i, fr, fr.fn.Pos(), fn, []value{box(t)})
 		t.discarded = true
 		if e, ok := res.(iface); ok && e.t != nil {
